@@ -103,7 +103,7 @@ var simAssumptions = []string{
 func simProp(rule string, probes ...string) *propCfg {
 	return &propCfg{engine: "vsim", instrumented: true, level: "exploration", quickS: 25, thoroughS: 420, rule: rule,
 		components: simComponents, assumptions: simAssumptions, wantProbes: probes,
-		variantsQ: []string{"default"}, variantsT: []string{"default", "poll_opt", "gc_opt", "poll_opt+gc_opt"}}
+		variantsQ: []string{"default"}, variantsT: []string{"default", "default+small", "poll_opt", "gc_opt", "poll_opt+gc_opt"}}
 }
 
 func init() {
